@@ -184,6 +184,11 @@ class Axis(GetSetDelAttrMixin, AbstractAxis):
         >>> a.values
         array(['a', 2.0, 3.0], dtype=object)
         """
+        if ((isinstance(item, tuple) and item == ()) or (isinstance(item, slice) and item == slice(None))) and np.ndim(value) == 1:
+            # the whole axis is given new labels: they are taken as they are (type and number), as on a new axis
+            self.values = value
+            return
+
         self._values = _maybe_cast_type(self._values, value)
 
         # now can proceed to asignment
